@@ -304,7 +304,8 @@ def check(prop_id, tier, seed, replay=None):
           % (prop_id, tier, "ok" if proof["ok"] else "BROKEN", len(thms), proof.get("examples", 0), "ok" if ok_t else "BROKEN",
              len(histories), frames, len(inst_of), len(mismatches), n_or - n_known,
              (" (+ %d instances of recorded findings)" % n_known) if n_known else "", time.time() - t0))
-    for k in sorted(set(known_lines)):
+    # one line per listed finding of this property, whether or not this run's sample happened to walk into it
+    for k in sorted(set(known_lines) | set("KNOWN-FINDING: property=%s %s" % (prop_id, k["what"]) for k in known_here)):
         print(k)
     for v in violations:
         print(v)
